@@ -161,8 +161,8 @@ PROPS["C05"] = {
 }
 PROPS["C06"] = {
     "translators": ["consts"],
-    "lean_targets": prop_modules("C06"),
-    "theorems": lambda: thms("C06"),
+    "lean_targets": prop_modules("C06", extra=("JediVerif.Properties.C06b",)),
+    "theorems": lambda: thms("C06", extra=(("JediVerif.Properties.C06b", "Jedi.C06"),)),
     "streams": stream_set([("scalar", 6)], ["asm", "portable32"], ALLCFG + ["asan"], scale=4),
 }
 PROPS["C07"] = {
